@@ -92,8 +92,181 @@ package modm
 
 //@ config limbs64
 //@ func ContractWindow4(r, in)
-//@   requires canon(*in) && sval(*in) < 1<<255
+//@   requires canon(*in) && in[4] < 1<<31
 //@   modifies *r
+//@   loop#3 assert 0 <= r[i] && r[i] + carry <= 16 && 0 <= carry
+//@   loop#3 name carry, r[i]
 //@   ensures forall(i, 0, 63, -8 <= r[i] && r[i] < 8)
 //@   ensures 0 <= r[63] && r[63] <= 8
 //@   ensures sum(i, 0, 64, r[i] * pow2(4*i)) == sval(old(*in))
+
+//@ spec pval(x, n) = x[0] + ite(n >= 1, x[1]<<56, 0) + ite(n >= 2, x[2]<<112, 0) + ite(n >= 3, x[3]<<168, 0) + ite(n >= 4, x[4]<<224, 0)
+
+//@ func SubVartime(out, a, b, limbSize)
+//@   alias out==a
+//@   requires 0 <= limbSize && limbSize <= 4 && limbs56(*a) && limbs56(*b) && pval(*a, limbSize) >= pval(*b, limbSize)
+//@   modifies *out
+//@   ensures pval(*out, limbSize) == pval(old(*a), limbSize) - pval(old(*b), limbSize)
+//@   ensures forall(i, 0, 5, i <= limbSize ==> out[i] < 1<<56)
+//@   ensures forall(i, 0, 5, i > limbSize ==> out[i] == old(out[i]))
+
+//@ func LessThanVartime(a, b, limbSize)
+//@   alias a==b
+//@   requires 0 <= limbSize && limbSize <= 4 && limbs56(*a) && limbs56(*b)
+//@   modifies nothing
+//@   ensures result == (pval(*a, limbSize) < pval(*b, limbSize))
+
+//@ func LessThanOrEqualVartime(a, b, limbSize)
+//@   alias a==b
+//@   requires 0 <= limbSize && limbSize <= 4 && limbs56(*a) && limbs56(*b)
+//@   modifies nothing
+//@   ensures result == (pval(*a, limbSize) <= pval(*b, limbSize))
+
+
+// ===================================================================
+
+// Sliding-window recoding. Proved of the body: the bit expansion (cut at loop#4),
+// memory safety and the frame. The digit property of the second phase is NOT
+// proved (nested data-dependent loops); it is an explicit assumption for callers.
+//@ func ContractSlidingWindow(r, s, windowSize)
+//@   requires canon(*s) && (windowSize == 5 || windowSize == 7)
+//@   modifies *r
+//@   cut at loop#4 havoc *r : forall(k, 0, 256, 0 <= r[k] && r[k] <= 1) && sum(k, 0, 256, r[k] * pow2(k)) == sval(old(*s))
+//@   loop#4 modifies j, *r
+//@   loop#4 invariant 0 <= j && j <= 256
+//@   loop#5 modifies b, *r
+//@   loop#5 invariant 1 <= b && b <= 7
+//@   loop#6 modifies k, *r
+//@   loop#6 invariant j + b <= k && k <= 256
+//@   assume-ensures forall(k, 0, 256, r[k] == 0 || (r[k] % 2 == 1 && 0 - pow2(windowSize - 1) < r[k] && r[k] < pow2(windowSize - 1)))
+//@   assume-ensures sval(old(*s)) < 1<<253 ==> sum(k, 0, 256, r[k] * pow2(k)) == sval(old(*s))
+
+// 32-bit layout: 9 limbs of 30 bits
+// ===================================================================
+
+//@ config limbs32
+//@ spec sval(x) = x[0] + x[1]<<30 + x[2]<<60 + x[3]<<90 + x[4]<<120 + x[5]<<150 + x[6]<<180 + x[7]<<210 + x[8]<<240
+//@ spec limbs56(x) = x[0] < 1<<30 && x[1] < 1<<30 && x[2] < 1<<30 && x[3] < 1<<30 && x[4] < 1<<30 && x[5] < 1<<30 && x[6] < 1<<30 && x[7] < 1<<30 && x[8] < 1<<30
+//@ spec canon(x) = x[0] < 1<<30 && x[1] < 1<<30 && x[2] < 1<<30 && x[3] < 1<<30 && x[4] < 1<<30 && x[5] < 1<<30 && x[6] < 1<<30 && x[7] < 1<<30 && x[8] < 1<<16
+//@ spec reduced(x) = canon(x) && sval(x) < L
+//@ spec low8(x) = x[0] + x[1]<<30 + x[2]<<60 + x[3]<<90 + x[4]<<120 + x[5]<<150 + x[6]<<180 + x[7]<<210
+
+//@ func reduce(r)
+//@   requires limbs56(*r)
+//@   modifies *r
+//@   ensures limbs56(*r)
+//@   ensures sval(*r) == ite(sval(old(*r)) >= L, sval(old(*r)) - L, sval(old(*r)))
+
+//@ func (*Bignum256).Reset(r)
+//@   modifies *r
+//@   ensures forall(i, 0, 9, r[i] == 0)
+
+//@ func Add(r, x, y)
+//@   alias r==x | r==y | x==y | r==x==y
+//@   requires reduced(*x) && reduced(*y)
+//@   modifies *r
+//@   ensures reduced(*r)
+//@   ensures cong(sval(*r), sval(old(*x)) + sval(old(*y)), L)
+
+//@ func barrettReduce(r, q1, r1)
+//@   alias r==r1
+//@   requires limbs56(*q1) && q1[8] < 1<<24 && limbs56(*r1) && r1[8] < 1<<24
+//@   requires q1[0] % (1<<16) == r1[8] >> 8
+//@   modifies *r
+//@   cut after store q3 havoc q3 : limbs56(q3) && (sval(q3) << 264) <= MU * sval(*q1) && MU * sval(*q1) < (sval(q3) << 264) + (1<<264) + (1<<245)
+//@   cut after store r2 havoc r2 : limbs56(r2) && r2[8] < 1<<24 && cong(sval(r2), sval(q3) * L, 1<<264)
+//@   cut before call reduce#1 havoc *r : limbs56(*r) && r[8] < 1<<24 && cong(sval(*r) + sval(r2), sval(old(*r1)), 1<<264)
+//@   cut before call reduce#1 havoc : cong(sval(*r), (sval(old(*q1)) << 248) + low8(old(*r1)) + (old(r1[8]) % (1<<8))<<240 - sval(q3) * L, 1<<264)
+//@   cut before call reduce#1 havoc : 0 <= (sval(old(*q1)) << 248) + low8(old(*r1)) + (old(r1[8]) % (1<<8))<<240 - sval(q3) * L && (sval(old(*q1)) << 248) + low8(old(*r1)) + (old(r1[8]) % (1<<8))<<240 - sval(q3) * L < 3*L
+//@   cut before call reduce#1 havoc : sval(*r) == (sval(old(*q1)) << 248) + low8(old(*r1)) + (old(r1[8]) % (1<<8))<<240 - sval(q3) * L && sval(*r) < 3*L
+//@   ensures reduced(*r)
+//@   ensures cong(sval(*r), (sval(old(*q1)) << 248) + low8(old(*r1)) + (old(r1[8]) % (1<<8))<<240, L)
+
+// Note: on this layout q1[8] keeps only 22 of the 24 top bits of x*y, so the
+// function is exact only for x*y < 2^510; every caller passes a reduced x.
+//@ func Mul(r, x, y)
+//@   alias r==x | r==y | x==y | r==x==y
+//@   requires canon(*x) && canon(*y) && x[8] < 1<<13
+//@   modifies *r
+//@   ensures reduced(*r)
+//@   ensures cong(sval(*r), sval(old(*x)) * sval(old(*y)), L)
+
+//@ func Expand(out, in)
+//@   requires len(in) <= 64
+//@   modifies *out
+//@   ensures canon(*out)
+//@   ensures len(in) >= 32 ==> reduced(*out)
+//@   ensures len(in) == 64 ==> cong(sval(*out), le(in[0:64]), L)
+//@   ensures len(in) == 32 ==> cong(sval(*out), le(in[0:32]), L)
+//@   ensures len(in) == 16 ==> sval(*out) == le(in[0:16])
+
+//@ func ExpandRaw(out, in)
+//@   requires len(in) >= 32
+//@   modifies *out
+//@   ensures canon(*out)
+//@   ensures sval(*out) == le(in[0:32])
+
+//@ func Contract(out, in)
+//@   requires len(out) >= 32 && canon(*in)
+//@   modifies out[0:32]
+//@   ensures le(out[0:32]) == sval(old(*in))
+
+//@ func IsZeroVartime(a)
+//@   modifies nothing
+//@   ensures result == forall(i, 0, 9, a[i] == 0)
+
+//@ func IsOneVartime(a)
+//@   modifies nothing
+//@   ensures result == (a[0] == 1 && forall(i, 1, 9, a[i] == 0))
+
+//@ func IsAtMost128bitsVartime(a)
+//@   requires limbs56(*a)
+//@   modifies nothing
+//@   ensures result == (sval(*a) < 1<<128)
+
+//@ func ContractWindow4(r, in)
+//@   requires canon(*in) && in[8] < 1<<15
+//@   modifies *r
+//@   loop#4 assert 0 <= r[i] && r[i] + carry <= 16 && 0 <= carry
+//@   loop#4 name carry, r[i]
+//@   ensures forall(i, 0, 63, -8 <= r[i] && r[i] < 8)
+//@   ensures 0 <= r[63] && r[63] <= 8
+//@   ensures sum(i, 0, 64, r[i] * pow2(4*i)) == sval(old(*in))
+
+//@ spec pval(x, n) = x[0] + ite(n >= 1, x[1]<<30, 0) + ite(n >= 2, x[2]<<60, 0) + ite(n >= 3, x[3]<<90, 0) + ite(n >= 4, x[4]<<120, 0) + ite(n >= 5, x[5]<<150, 0) + ite(n >= 6, x[6]<<180, 0) + ite(n >= 7, x[7]<<210, 0) + ite(n >= 8, x[8]<<240, 0)
+
+//@ func SubVartime(out, a, b, limbSize)
+//@   alias out==a
+//@   requires 0 <= limbSize && limbSize <= 8 && limbs56(*a) && limbs56(*b) && pval(*a, limbSize) >= pval(*b, limbSize)
+//@   modifies *out
+//@   ensures pval(*out, limbSize) == pval(old(*a), limbSize) - pval(old(*b), limbSize)
+//@   ensures forall(i, 0, 9, i <= limbSize ==> out[i] < 1<<30)
+//@   ensures forall(i, 0, 9, i > limbSize ==> out[i] == old(out[i]))
+
+//@ func LessThanVartime(a, b, limbSize)
+//@   alias a==b
+//@   requires 0 <= limbSize && limbSize <= 8 && limbs56(*a) && limbs56(*b)
+//@   modifies nothing
+//@   ensures result == (pval(*a, limbSize) < pval(*b, limbSize))
+
+//@ func LessThanOrEqualVartime(a, b, limbSize)
+//@   alias a==b
+//@   requires 0 <= limbSize && limbSize <= 8 && limbs56(*a) && limbs56(*b)
+//@   modifies nothing
+//@   ensures result == (pval(*a, limbSize) <= pval(*b, limbSize))
+
+// Sliding-window recoding. Proved of the body: the bit expansion (cut at loop#4),
+// memory safety and the frame. The digit property of the second phase is NOT
+// proved (nested data-dependent loops); it is an explicit assumption for callers.
+//@ func ContractSlidingWindow(r, s, windowSize)
+//@   requires canon(*s) && (windowSize == 5 || windowSize == 7)
+//@   modifies *r
+//@   cut at loop#4 havoc *r : forall(k, 0, 256, 0 <= r[k] && r[k] <= 1) && sum(k, 0, 256, r[k] * pow2(k)) == sval(old(*s))
+//@   loop#4 modifies j, *r
+//@   loop#4 invariant 0 <= j && j <= 256
+//@   loop#5 modifies b, *r
+//@   loop#5 invariant 1 <= b && b <= 7
+//@   loop#6 modifies k, *r
+//@   loop#6 invariant j + b <= k && k <= 256
+//@   assume-ensures forall(k, 0, 256, r[k] == 0 || (r[k] % 2 == 1 && 0 - pow2(windowSize - 1) < r[k] && r[k] < pow2(windowSize - 1)))
+//@   assume-ensures sval(old(*s)) < 1<<253 ==> sum(k, 0, 256, r[k] * pow2(k)) == sval(old(*s))
